@@ -72,8 +72,11 @@ func (g *Glyph) encodeCharString(defaultWidth, nominalWidth float64) ([]byte, er
 			stems = stems[2*k:]
 			prev := 0.0
 			for _, x := range chunk {
-				header = append(header, encodeNumber(x-prev).Code)
-				prev = x
+				// prev is the edge as the decoder will see it, so that
+				// rounding errors do not accumulate
+				delta := encodeNumber(x - prev)
+				header = append(header, delta.Code)
+				prev += delta.Val
 			}
 
 			canOmitVStem := (i == 1 &&
